@@ -136,7 +136,7 @@ def gen_function(c: Contract, prop: str, bounded=None) -> FunctionReport:
         st.old = Namespace(dict(st.env), dict(st.heap))
         # vacuity: the precondition must be satisfiable
         s = z3.Solver()
-        s.set("timeout", 10000)
+        s.set("timeout", 60000)      # one query per function; generous so that the verdict does not depend on machine load
         s.add(*pre_pc)
         r = s.check()
         ob = Obligation(name=f"{prop}/{c.key.replace(':', '.')}/vacuity[requires]", hyps=[], goal=None, kind="vacuity",
